@@ -1,24 +1,22 @@
 package main
 
-// Monitors for C16: an independent reference for the line that the property
-// text describes, stated on what the real ConsoleWriter wrote.  Nothing here
-// is shared with the Coq model; the event is decoded again with
-// encoding/json, the expected field set / order / quoting are computed from
-// the property text, and the observed line is parsed back with the known
-// option set.  Where the text leaves a choice (error position under
+// Monitors for C16: the property text stated on what the real ConsoleWriter
+// wrote.  Nothing here is shared with the Coq model: the event is decoded
+// again with encoding/json, the expected field set / order / quoting are
+// computed from the property text, and the observed line is parsed back with
+// the known option set.  Where the text leaves a choice (error position under
 // FieldsOrder, a name listed twice in FieldsOrder, the byte 0x7f, HTML
-// escaping inside compact JSON) every choice is accepted.
+// escaping inside compact JSON) every choice is accepted.  The text of a part
+// is not fixed by the property; only "the PartsOrder entries minus
+// PartsExclude, in order, before the fields" is checked (partsSection).
 
 import (
 	"bytes"
 	"encoding/json"
 	"fmt"
-	"os"
-	"path/filepath"
 	"sort"
 	"strconv"
 	"strings"
-	"time"
 
 	. "verifharness/hlib"
 )
@@ -126,121 +124,42 @@ func matchSeq(tail string, seq []string, m map[string]interface{}, strict bool) 
 	return pos == len(tail)
 }
 
-// reference part texts (default formatters, colour off)
-func refParts(m map[string]interface{}, o Opts) string {
+// The parts section the text describes: "the configured parts in PartsOrder"
+// (minus PartsExclude), in that order.  What each part formatter prints is not
+// fixed by the property, so the text of a part is taken from the
+// implementation itself, rendering the same event with that part alone and
+// every field excluded (a metamorphic statement; the exact texts are checked
+// by the model correspondence, not here).
+func partsSection(cs *Case, m map[string]interface{}) string {
+	o := cs.Opts
 	parts := []string{"time", "level", "caller", "message"}
 	if o.PartsOrderSet {
 		parts = o.PartsOrder
 	}
+	var all []string
+	for k := range m {
+		all = append(all, k)
+	}
+	sort.Strings(all)
+	texts := map[string]string{}
 	var out []string
 	for _, p := range parts {
 		if inList(p, o.PartsExclude) {
 			continue
 		}
-		v := m[p]
-		var s string
-		switch p {
-		case "level":
-			s = refLevel(v)
-		case "time":
-			s = refTime(v, o)
-		case "message":
-			if v == nil || v == "" {
-				s = ""
-			} else {
-				s = fmt.Sprintf("%s", v)
-			}
-		case "caller":
-			if c, ok := v.(string); ok && c != "" {
-				if wd, err := os.Getwd(); err == nil {
-					if rel, err := filepath.Rel(wd, c); err == nil {
-						c = rel
-					}
-				}
-				s = c + " >"
-			}
-		default:
-			s = fmt.Sprintf("%s", v)
+		t, ok := texts[p]
+		if !ok {
+			o1 := o
+			o1.PartsOrderSet, o1.PartsOrder, o1.PartsExclude, o1.FieldsOrder, o1.FieldsExclude = true, []string{p}, nil, nil, all
+			ob := render(&Case{Event: cs.Event, Opts: o1}, 1)
+			t = strings.TrimSuffix(string(ob.outs[0]), "\n")
+			texts[p] = t
 		}
-		if s != "" {
-			out = append(out, s)
+		if t != "" {
+			out = append(out, t)
 		}
 	}
 	return strings.Join(out, " ")
-}
-
-var refLevels = map[string]string{"trace": "TRC", "debug": "DBG", "info": "INF", "warn": "WRN", "error": "ERR", "fatal": "FTL", "panic": "PNC"}
-var refLevelNums = map[int]string{-1: "TRC", 0: "DBG", 1: "INF", 2: "WRN", 3: "ERR", 4: "FTL", 5: "PNC"}
-
-func refStrip(s string) string {
-	if s == "" {
-		return "???"
-	}
-	if len(s) > 3 {
-		s = s[:3]
-	}
-	return strings.ToUpper(s)
-}
-
-func refLevel(v interface{}) string {
-	switch x := v.(type) {
-	case nil:
-		return "???"
-	case string:
-		for n, f := range refLevels {
-			if strings.EqualFold(x, n) {
-				return f
-			}
-		}
-		if strings.EqualFold(x, "disabled") || x == "" {
-			return refStrip(x)
-		}
-		if i, err := strconv.Atoi(x); err == nil && i >= -128 && i <= 127 {
-			if f, ok := refLevelNums[i]; ok {
-				return f
-			}
-		}
-		return refStrip(x)
-	default:
-		return refStrip(fmt.Sprintf("%s", v))
-	}
-}
-
-func refTime(v interface{}, o Opts) string {
-	loc := o.location()
-	if loc == nil {
-		loc = time.Local
-	}
-	tf := o.TimeFormat
-	if tf == "" {
-		tf = time.Kitchen
-	}
-	switch x := v.(type) {
-	case string:
-		ts, err := time.ParseInLocation(o.TimeFieldFormat, x, loc)
-		if err != nil {
-			return x
-		}
-		return ts.In(loc).Format(tf)
-	case json.Number:
-		i, err := x.Int64()
-		if err != nil {
-			return x.String()
-		}
-		var ts time.Time
-		switch o.TimeFieldFormat {
-		case "UNIXNANO":
-			ts = time.Unix(0, i)
-		case "UNIXMICRO":
-			ts = time.Unix(0, int64(time.Duration(i)*time.Microsecond))
-		case "UNIXMS":
-			ts = time.Unix(0, int64(time.Duration(i)*time.Millisecond))
-		default:
-			ts = time.Unix(i, 0)
-		}
-		return ts.In(loc).Format(tf)
-	}
-	return "<nil>"
 }
 
 // lenient parse of a field section into (name, form) tokens over ALL keys of the event
@@ -418,7 +337,7 @@ func checkLine(cs *Case, m map[string]interface{}, line string, viol func(key, m
 			}
 		}
 	}
-	prefix := refParts(m, o)
+	prefix := partsSection(cs, m)
 	sep := ""
 	if prefix != "" && len(want) > 0 {
 		sep = " "
@@ -437,13 +356,17 @@ func checkLine(cs *Case, m map[string]interface{}, line string, viol func(key, m
 		return
 	}
 	// the parts differ from the reference: are the fields still a correct suffix?
+	if len(want) == 0 {
+		viol("parts-mismatch", "parts", "the line is not the texts of the PartsOrder entries (minus PartsExclude) in order (no field is expected)", q(L), q(prefix))
+		return
+	}
 	for _, cand := range cands {
 		for cut := 0; cut <= len(L); cut++ {
 			if cut > 0 && len(cand) > 0 && L[cut-1] != ' ' {
 				continue
 			}
 			if matchSeq(L[cut:], cand, m, true) {
-				viol("parts-mismatch", "parts", "the parts before the fields differ from the default formatters' reference", q(L[:cut]), q(prefix+sep))
+				viol("parts-mismatch", "parts", "the parts before the fields are not the texts of the PartsOrder entries (minus PartsExclude) in order", q(L[:cut]), q(prefix+sep))
 				return
 			}
 			if len(cand) == 0 {
@@ -451,7 +374,7 @@ func checkLine(cs *Case, m map[string]interface{}, line string, viol func(key, m
 			}
 		}
 	}
-	viol("parts-mismatch", "parts", "the parts before the fields differ from the default formatters' reference", q(L), q(prefix+sep))
+	viol("parts-mismatch", "parts", "the parts before the fields are not the texts of the PartsOrder entries (minus PartsExclude) in order", q(L), q(prefix+sep))
 	diagnose(cs, m, L, want, cands, viol)
 }
 
